@@ -21,6 +21,8 @@ def main():
     per = {}
     for k, v in HAND.items():
         per.setdefault(k, []).extend(v)
+    for f in sorted(glob.glob(os.path.join(V, "tools", "corpus_hand", "*.txt"))):      # long witness lines kept as files
+        per.setdefault(os.path.basename(f)[:-4], []).extend(l.rstrip("\n") for l in open(f) if l.strip() and not l.startswith("#"))
     for f in sorted(glob.glob(os.path.join(V, "seeded", "*", "meta.json"))):
         m = json.load(open(f))
         for prop, r in m.get("checks", {}).items():
